@@ -5,6 +5,7 @@ from ..astx import (calls_in, dotted, norm, src, iter_nodes, assigned_targets, a
                     const_value, is_const, parent_chain)
 from ..lib import (call_arg, relation, truth, other, cmp_views, core, holds_region, conditions, found_test, found_tests, path_tests, entails_empty, paths_entail_empty, eval_conditions, relation_tests, atom_key, expand_condition, mode_mismatch_conditions, cfg_nodes_with_call, node_calls, returns, stmt_assigns_attr, callee_last,
                    is_name, is_self_attr, node_roots, guard_region, compare_parts)
+from ..lib import *      # noqa: F401,F403  (path-condition helpers)
 from ..linear import ctext
 from ..loader import AnalysisError
 from ..taint import Labels
@@ -79,11 +80,25 @@ def check_read_logged(c, repo, f):
         if n.kind == 'stmt' and isinstance(n.ast, (ast.Assign, ast.AugAssign)):
             for nm in assigned_names(n.ast):
                 supervars.add(nm)
-    for n in g.nodes:
-        if n.kind == 'stmt' and isinstance(n.ast, (ast.Assign, ast.AugAssign)):
-            if not from_super(n.ast.value):
-                for nm in assigned_names(n.ast):
-                    supervars.discard(nm)
+    def super_only(e):
+        # a base-class read, or the concatenation of values that are base-class reads
+        if from_super(e):
+            return True
+        if isinstance(e, ast.Name):
+            return e.id in supervars
+        if isinstance(e, ast.BinOp) and isinstance(e.op, ast.Add):
+            return super_only(e.left) and super_only(e.right)
+        return False
+    changed = True
+    while changed:
+        changed = False
+        for n in g.nodes:
+            if n.kind == 'stmt' and isinstance(n.ast, (ast.Assign, ast.AugAssign)):
+                if not super_only(n.ast.value):
+                    for nm in assigned_names(n.ast):
+                        if nm in supervars:
+                            supervars.discard(nm)
+                            changed = True
     for r in rets:
         v = r.ast.value
         if from_super(v) or (isinstance(v, ast.Name) and v.id in supervars):
@@ -117,8 +132,7 @@ def check_read_logged(c, repo, f):
 def popen_eof_branch_carries_no_data(f, r):
     g = f.cfg
     # the exception applies only INSIDE the branch taken when the end of the stream was already seen
-    eb = [t for t in g.nodes if t.kind == 'test' and norm(t.ast) == 'self._read_reached_eof']
-    if len(eb) != 1 or r not in guard_region(g, eb[0], 'true'):
+    if ('self._read_reached_eof', True) not in conditions(g, r):
         return False, 'this return is not in the `if self._read_reached_eof` branch: it can carry data that was never logged'
     flags = [n for n in g.nodes if n.kind == 'stmt' and stmt_assigns_attr(n.ast, '_read_reached_eof') is not None]
     if len(flags) != 1:
@@ -126,15 +140,14 @@ def popen_eof_branch_carries_no_data(f, r):
     loops = [p for p in parent_chain(flags[0].ast) if isinstance(p, ast.While)]
     if not loops:
         return False, 'the EOF flag is set outside the dequeue loop'
-    test = norm(loops[0].test)
     # the accumulated-text variable: the local initialised from self._buf
     bufs = [n.ast.targets[0].id for n in g.nodes if n.kind == 'stmt' and isinstance(n.ast, ast.Assign) and isinstance(n.ast.targets[0], ast.Name)
             and norm(n.ast.value) == 'self._buf']
     if len(bufs) != 1:
         return False, 'the accumulated-text local (initialised from self._buf) was not found'
     buf = bufs[0]
-    if 'len(%s) < size' % buf not in test:
-        return False, 'the loop guard %s does not bound len(%s) < size' % (test, buf)
+    if ('len(%s) < size' % buf, True) not in loop_entry_conditions(g, flags[0]):
+        return False, 'the end-of-stream flag can be set while len(%s) >= size (no `len(%s) < size` condition on the way to it)' % (buf, buf)
     # buf not extended between loop test and the flag on that path: flag is in the `incoming is None` branch before any buf +=
     hdr = g.node_of_stmt(loops[0])
     mods = [n for n in g.nodes if n.kind == 'stmt' and buf in assigned_names(n.ast) and any(p is loops[0] for p in parent_chain(n.ast))]
@@ -228,15 +241,23 @@ def check_log_body(c, f):
     second = [o for o in objs if o != 'self.logfile']
     c.need(len(second) == 1, '_log: second log object not found')
     defs = [n for n in iter_nodes(f.node) if isinstance(n, ast.Assign) and second[0] in assigned_names(n)]
-    ok = False
     wit = str([norm(d) for d in defs])
-    if len(defs) == 1 and isinstance(defs[0].value, ast.IfExp):
-        v = defs[0].value
-        cp = compare_parts(v.test)
-        if cp and is_name(cp[0], dp) and isinstance(cp[1], ast.Eq) and is_const(cp[2], 'send'):
-            ok = norm(v.body) == 'self.logfile_send' and norm(v.orelse) == 'self.logfile_read'
-        elif cp and is_name(cp[0], dp) and isinstance(cp[1], ast.Eq) and is_const(cp[2], 'read'):
-            ok = norm(v.body) == 'self.logfile_read' and norm(v.orelse) == 'self.logfile_send'
+    # each definition of the second log object: logfile_send exactly under direction == 'send', logfile_read otherwise
+    is_send = atom_key(ast.parse("%s == 'send'" % dp, mode='eval').body)[0]
+    is_read = atom_key(ast.parse("%s == 'read'" % dp, mode='eval').body)[0]
+    seen = set()
+    ok = bool(defs)
+    for d in defs:
+        cs = conditions(f.cfg, f.cfg.node_of_stmt(d))
+        val = norm(d.value)
+        seen.add(val)
+        if val == 'self.logfile_send':
+            ok = ok and ((is_send, True) in cs or (is_read, False) in cs)
+        elif val == 'self.logfile_read':
+            ok = ok and ((is_read, True) in cs or (is_send, False) in cs)
+        else:
+            ok = False
+    ok = ok and seen == {'self.logfile_send', 'self.logfile_read'}
     c.check(ok, f, defs[0] if defs else None, "direction 'send' selects logfile_send, 'read' selects logfile_read", witness=wit, kind='alg', tag='select')
     # each of the two writes happens at most once
     for n, k in writes:
